@@ -77,7 +77,14 @@ fn main() {
         "C01" => docprops::c01(&mut ctx),
         "C03" => docprops::c03(&mut ctx),
         "C04" => docprops::c04(&mut ctx),
+        "C05" => docprops::c05(&mut ctx),
+        "C06" => docprops::c06(&mut ctx),
         "C09" => docprops::c09(&mut ctx),
+        "C11" => docprops::c11(&mut ctx),
+        "render-proc" => {
+            docprops::render_proc(&ctx.args);
+            return;
+        }
         "C10" => docprops::c10(&mut ctx),
         "C14" => docprops::c14(&mut ctx),
         "unicode-table" => {
